@@ -62,7 +62,9 @@ class _nominal_builder:
         self.config = config
 
     def append(self, channel, sample, defined_samp):
-        self.mega_samples.setdefault(sample, {'name': f'mega_{sample}', 'nom': []})
+        self.mega_samples.setdefault(
+            sample, {'name': f'mega_{sample}', 'nom': [], 'mask': []}
+        )
         nom = (
             defined_samp['data']
             if defined_samp
@@ -73,6 +75,10 @@ class _nominal_builder:
                 f'expected {self.config.channel_nbins[channel]} size sample data but got {len(nom)}'
             )
         self.mega_samples[sample]['nom'].append(nom)
+        # a sample that is not defined in a channel has no bins there
+        self.mega_samples[sample]['mask'].append(
+            [defined_samp is not None] * self.config.channel_nbins[channel]
+        )
 
     def finalize(self):
         default_backend = pyhf.default_backend
@@ -89,6 +95,22 @@ class _nominal_builder:
                 1,  # modifier dimension.. nominal_rates is the base
                 len(self.config.samples),
                 1,  # alphaset dimension
+                sum(list(self.config.channel_nbins.values())),
+            ),
+        )
+        # which (sample, bin) cells exist at all, in the shape of expected_data's
+        # by-sample rates: (samples, alphaset/batch, bins)
+        self.sample_mask = default_backend.reshape(
+            default_backend.astensor(
+                [
+                    default_backend.concatenate(self.mega_samples[sample]['mask'])
+                    for sample in self.config.samples
+                ],
+                dtype='bool',
+            ),
+            (
+                len(self.config.samples),
+                1,
                 sum(list(self.config.channel_nbins.values())),
             ),
         )
@@ -209,7 +231,7 @@ def _nominal_and_modifiers_from_spec(modifier_set, config, spec, batch_size):
             **config.modifier_settings.get(k, {}),
         )
 
-    return the_modifiers, nominal_rates
+    return the_modifiers, nominal_rates, nominal.sample_mask
 
 
 class _ModelConfig(_ChannelSummaryMixin):
@@ -596,6 +618,7 @@ class _MainModel:
         batch_size=None,
         clip_sample_data: Union[float, None] = None,
         clip_bin_data: Union[float, None] = None,
+        sample_mask=None,
     ):
         default_backend = pyhf.default_backend
 
@@ -619,6 +642,13 @@ class _MainModel:
         self._nominal_rates = default_backend.tile(
             nominal_rates, (1, 1, self.batch_size or 1, 1)
         )
+        # (sample, batch, bin) cells that exist: a sample clipped from below must
+        # not appear in channels it is not part of
+        self._sample_mask = (
+            None
+            if sample_mask is None
+            else default_backend.tile(sample_mask, (1, self.batch_size or 1, 1))
+        )
 
         self.modifiers_appliers = modifiers
 
@@ -634,6 +664,11 @@ class _MainModel:
     def _precompute(self):
         tensorlib, _ = get_backend()
         self.nominal_rates = tensorlib.astensor(self._nominal_rates)
+        self.sample_mask = (
+            None
+            if self._sample_mask is None
+            else tensorlib.astensor(self._sample_mask, dtype='bool')
+        )
 
     def has_pdf(self):
         """
@@ -735,8 +770,13 @@ class _MainModel:
 
         newbysample = tensorlib.product(allfac, axis=0)
         if self.clip_sample_data is not None:
-            newbysample = tensorlib.clip(
+            clipped = tensorlib.clip(
                 newbysample, self.clip_sample_data, max_value=None
+            )
+            newbysample = (
+                clipped
+                if self.sample_mask is None
+                else tensorlib.where(self.sample_mask, clipped, newbysample)
             )
 
         if return_by_sample:
@@ -800,7 +840,7 @@ class Model:
         poi_name = config_kwargs.pop("poi_name", None)
         self._config = _ModelConfig(self.spec, **config_kwargs)
 
-        modifiers, _nominal_rates = _nominal_and_modifiers_from_spec(
+        modifiers, _nominal_rates, _sample_mask = _nominal_and_modifiers_from_spec(
             modifier_set, self.config, self.spec, self.batch_size
         )
 
@@ -815,6 +855,7 @@ class Model:
             batch_size=self.batch_size,
             clip_sample_data=clip_sample_data,
             clip_bin_data=clip_bin_data,
+            sample_mask=_sample_mask,
         )
 
         # the below call needs auxdata order for example
